@@ -23,7 +23,7 @@ def build_harness(profile="dev"):
     tgt = os.path.join(vlib.BUILD, "mut_c14", "target")
     open(os.path.join(dst, "Cargo.toml"), "w").write(open(os.path.join(src, "Cargo.toml")).read().replace('path = "/repo"', 'path = "%s"' % repo))
     open(os.path.join(dst, ".cargo", "config.toml"), "w").write('[net]\noffline = true\n[build]\ntarget-dir = "%s"\n' % tgt)
-    for f in ("lib.rs", "streamlib.rs"):
+    for f in ("lib.rs", "streamlib.rs", "dictgen.rs"):
         shutil.copy(os.path.join(src, "src", f), os.path.join(dst, "src", f))
     shutil.copy(os.path.join(src, "src", "bin", "c14.rs"), os.path.join(dst, "src", "bin", "c14.rs"))
     if os.path.exists(os.path.join(src, "Cargo.lock")):
@@ -77,7 +77,7 @@ def histories(rng, n, wrap_at=None):
     for _ in range(rng.randrange(2, 7)):
         chunks.append("%s%d/%d" % (rng.choice("ppf"), rng.randrange(0, max(1, n // 2)), rng.choice([17, 1000, AMPLE])))
     hs.append(chunks + [fin])
-    hs.append(["p%d/0" % rng.randrange(1, max(2, n)), "f0/0", "e999999999/0", "e0/%d" % AMPLE])
+    hs.append(["p%d/1" % rng.randrange(1, max(2, n)), "f0/16", "e999999999/%d" % rng.choice([1, 16, 1000])])
     return hs
 
 
@@ -89,8 +89,16 @@ def gen_cases(run, thorough):
         cases.append(req)
         d = {"kind": kind}
         d.update(kw)
+        for kv in req.split()[0][2:].split(","):
+            if kv.startswith("152:"):
+                d["stride"] = int(kv[4:])
         meta.append(d)
 
+    # 0. the inputs on which the two repaired defects were found (known_findings.json), every run
+    for q in (2, 5, 9, 11):
+        add("regression", "P=1:%d,2:18,151:1 D=dmix:3000:7 X=text:300:5 C=e999999999/1000000" % q, quality=q, lgwin=18, dict_len=300)
+    add("regression", "P=1:6,2:22,151:1,152:4 D=wmix:30000:390678516 C=e999999999/4194304", quality=6, lgwin=22)
+    add("regression", "P=1:5,2:11,151:1,152:4,153:0,155:2,156:1,0:2 D=wmix:20000:155445952 C=p15028/100,e999999999/4194304", quality=5, lgwin=11)
     side_levels = {152: [0, 1, 2, 3, 4], 153: [0, 1, 2], 155: [0, 1, 2, 3], 156: [0, 1]}
     quals = list(range(2, 12))
     lgwins = [10, 11, 12, 14, 16, 18, 20, 22, 24]
@@ -140,6 +148,12 @@ def gen_cases(run, thorough):
         n = min(size_for(q), 40000)
         add("side-all", mk([(1, q), (2, lw), (151, 1)] + side + fl, (rng.choice(kinds), n, rng.randrange(1, 1 << 30)),
                            rng.choice(histories(rng, n))), quality=q, lgwin=lw, side=dict(side))
+    # 3b. stride evaluation (152 > 2) on inputs whose meta-blocks have several literal block types
+    for _ in range(150 if thorough else 40):
+        q = rng.choice([4, 5, 6, 7, 8, 9, 10, 11])
+        n = rng.choice([8000, 15000, 30000, 60000]) if q < 10 else rng.choice([8000, 15000])
+        add("stride", mk([(1, q), (2, rng.choice([16, 18, 22])), (151, 1), (152, rng.choice([3, 4]))],
+                         (rng.choice(["wmix", "mix", "words"]), n, rng.randrange(1, 1 << 30))), quality=q)
     # 4. custom dictionary: lengths around the boundaries, inputs built from the dictionary
     for q in quals:
         for lw in ([10, 12, 16, 22] if thorough else [rng.choice([10, 12]), rng.choice([16, 22])]):
@@ -221,8 +235,9 @@ def parse_line(line):
 
 
 def used_dict_len(case_meta, q, lgwin):
+    # model/Dict.v enc_dict_setup (C10): quality 0/1 and the empty dictionary take the early return
     dl = case_meta.get("dict_len", 0)
-    if dl <= 1 or q <= 1:
+    if dl == 0 or q <= 1:
         return 0
     return min(dl, window(lgwin))
 
@@ -231,7 +246,7 @@ def evaluate(run, req, m, impl, ans, stats):
     """returns True when everything agrees"""
     status, recs, v = parse_line(impl)
     case = {"request": req, "kind": m["kind"], "quality": m.get("quality", -1), "lgwin": m.get("lgwin", -1),
-            "dict_len": m.get("dict_len", 0), "flags": str(m.get("flags", "")), "api": m.get("api", "stream")}
+            "dict_len": m.get("dict_len", 0), "flags": str(m.get("flags", "")), "api": m.get("api", "stream"), "stride": m.get("stride", 0)}
     parts = ans.split(" | ")
     if len(parts) != 3:
         run.report("correspondence", case, {"impl": status, "model": ans[:300]}, broken="model driver failed on this case: %s" % ans[:200], found_input=False)
@@ -269,7 +284,14 @@ def evaluate(run, req, m, impl, ans, stats):
             if ":" not in a:
                 ok, where = False, k
                 break
-            h, nbe = a.split(":")
+            h, nbe, nsw, sok = a.split(":")
+            if m.get("stride", 0) > 2:
+                stats["stride_runs"] = stats.get("stride_runs", 0) + 1
+                if int(nsw) in (3, 7, 15, 31):
+                    stats["stride_runs_at_2^k-1_types"] = stats.get("stride_runs_at_2^k-1_types", 0) + 1
+                if sok != "1":
+                    ok, where = False, k        # the model predicts a panic the implementation did not have
+                    break
             if h != f.get("irh") or (nxt is not None and nxt != nbe) or int(nbe) != int(f["nbe"]) + int(f["l0"]) + int(f["l1"]):
                 ok, where = False, k
                 break
@@ -327,7 +349,8 @@ def check(run):
                            broken="spec dict_expand differs from TransformDictionaryWord on `%s`" % r, found_input=False)
     cases, meta = gen_cases(run, thorough)
     impl = vlib.run_lines(impl_exe, cases, timeout=2400)
-    ans = vlib.run_lines(model, ["A " + i for i in impl], timeout=2400, args=margs)
+    ans = vlib.run_lines(model, ["A %d %s" % (used_dict_len(m, m.get("quality", 5), m.get("lgwin", 22)), i) for m, i in zip(meta, impl)],
+                         timeout=2400, args=margs)
     stats = {}
     nontrivial = set()
     for req, m, i, a in zip(cases, meta, impl, ans):
@@ -379,7 +402,8 @@ def replay(path):
         b = vlib.run_lines(model, [req], args=[DICT_TXT])[0]
         print("request: %s\nimpl:  %s\nmodel: %s" % (req, i, b))
         return 0 if i == b else 1
-    a = vlib.run_lines(model, ["A " + i], args=[DICT_TXT])[0]
+    c = d["case"]
+    a = vlib.run_lines(model, ["A %d %s" % (used_dict_len(c, c.get("quality", 5), c.get("lgwin", 22)), i)], args=[DICT_TXT])[0]
     status, recs, v = parse_line(i)
     parts = (a.split(" | ") + ["?", "?", "?"])[:3]
     print("request: %s" % req)
